@@ -14,7 +14,9 @@ CONSTANT MODE
 
 NonAscii == {128, 133, 159, 160, 173, 233, 255, 256, 453, 769, 2047, 2048, 8232, 8364, 55295, 57344, 65279, 65533, 65535, 65536, 128512, 917505, 1114111}
 PairReps == {0, 9, 31, 32, 34, 35, 37, 38, 43, 46, 47, 58, 60, 61, 62, 63, 64, 65, 96, 97, 123, 125, 126, 127, 233, 8364}
-Contents == CASE MODE = "single" -> {<<c>> : c \in (0..127) \cup NonAscii}
+\* a few longer contents: a literal "%XX" (must come out as %25XX), "%" before a non-hex, dots, a separator sandwich
+Longer == {<<37,52,49>>, <<37,50,102>>, <<37,122,122>>, <<37,37,50,70>>, <<46,46>>, <<46,46,46>>, <<47,47,47>>, <<97,47,47,47,98>>, <<64,63,35,64>>}
+Contents == CASE MODE = "single" -> {<<c>> : c \in (0..127) \cup NonAscii} \cup Longer
               [] MODE = "pairs" -> {<<a, b>> : a \in PairReps, b \in PairReps}
               [] MODE = "allpairs" -> {<<a, b>> : a \in 0..127, b \in 0..127}
 Pos == {"ns", "name", "ver", "qv", "sub"}
